@@ -150,10 +150,12 @@ Definition rm (f : fs) (p : path) : option fs :=
 Definition children (f : fs) (p : path) : list path :=
   map fst (filter (fun e => is_child p (fst e)) f).
 Definition rm_partial (f : fs) (p : path) (n : nat) : fs :=
-  match children f p with
-  | [] => f
-  | c0 :: cs => rm_tree f (nth (n mod (S (List.length cs))) (c0 :: cs) c0)
-  end.
+  if isdir_b f p then
+    match children f p with
+    | [] => f
+    | c0 :: cs => rm_tree f (nth (n mod (S (List.length cs))) (c0 :: cs) c0)
+    end
+  else f.
 
 (* filesystem.open(path, 'wb') + write + close: creates or truncates the file; the parent
    must be an existing directory (FileNotFoundError / NotADirectoryError otherwise) and
@@ -192,16 +194,21 @@ Definition find (f : fs) (p : path) : list path :=
      real_dst = p2/basename(p1) if p2 is an existing directory (error if that exists;
                 the same-path case is a no-op rename), else p2;
      os.rename(p1, real_dst): a file may replace a file; the parent of real_dst must be a
-     directory; a directory cannot replace a file nor be moved below itself. *)
+     directory; a directory cannot replace a file nor be moved below itself.
+   (The destination lying above the source cannot succeed in a real tree -- an existing
+   ancestor is a directory and the move-into-it target then is the source itself or one of
+   its existing ancestors; the model refuses it outright.) *)
 Definition rename_entry (p1 dst : path) (e : path * node) : path * node :=
   match strip_prefix p1 (fst e) with
   | Some r => (dst ++ r, snd e)
   | None => e
   end.
 
+(* whatever was at the destination is replaced (in a real tree the destination is absent
+   or a file, so there is nothing below it) *)
 Definition do_rename (f : fs) (p1 dst : path) : fs :=
   map (rename_entry p1 dst)
-      (filter (fun e => negb (path_eqb (fst e) dst)) f).
+      (filter (fun e => negb (is_prefix dst (fst e))) f).
 
 Definition move (f : fs) (p1 p2 : path) : option fs :=
   match p1, node_at f p1 with
@@ -213,7 +220,7 @@ Definition move (f : fs) (p1 p2 : path) : option fs :=
         else
           let dst := p2 ++ [last p1 NMeta] in
           if exists_b f dst then None
-          else if is_prefix p1 dst then None
+          else if is_prefix p1 dst || is_prefix dst p1 then None
           else Some (do_rename f p1 dst)
       else
         match p2 with
@@ -224,7 +231,7 @@ Definition move (f : fs) (p1 p2 : path) : option fs :=
                  source copytree creates the missing parents of the destination, for a
                  file source copy2 fails *)
               match src with
-              | Dir => if is_prefix p1 p2 then None
+              | Dir => if is_prefix p1 p2 || is_prefix p2 p1 then None
                        else match makedirs f (parent p2) with
                             | Some f' => Some (do_rename f' p1 p2)
                             | None => None
@@ -232,7 +239,7 @@ Definition move (f : fs) (p1 p2 : path) : option fs :=
               | File _ => None
               end
             else if path_eqb p1 p2 then Some f
-            else if is_prefix p1 p2 then None
+            else if is_prefix p1 p2 || is_prefix p2 p1 then None
             else match src, node_at f p2 with
                  | Dir, Some _ => None
                  | _, _ => Some (do_rename f p1 p2)
